@@ -111,7 +111,8 @@ def run_case(c):
     z_in = txp.asarray(np.asarray(c["z"]), dtype=tr.dtype) if tr.dtype is not None else txp.asarray(np.asarray(c["z"]))
     x_pre, j = tr.inverse(z_in)
     x_pre, j = ns.to_np(x_pre), ns.to_np(j).reshape(-1)
-    if c.get("pole") and np.all(np.abs(x_pre[0]) < c["half"]):
+    # (double precision only: in float32 the sampler rounds the pre-image, so "exactly at the pole" would have to be decided after that rounding)
+    if c.get("pole") and c["width"] == "f64" and np.all(np.abs(x_pre[0]) < c["half"]):
         target.pole = x_pre[0].copy()       # the likelihood is +inf exactly at the pre-image of the first kernel state
     target.calls.clear()
     seen = {}
